@@ -356,7 +356,62 @@ def recv_empty_is_closed():
     return 'bool', 'true'
 
 
+def flush_after_wait_before():
+    """the flush comes after the (first) sleep of wait_before and immediately before the first send.
+    StringIO.communicate: `garbage = None` in front of the loop `for cmd in cmds:`, whose body is exactly
+    `if self.wait_before: time.sleep(self.wait_before)`, `if garbage is None: garbage = self._conn.flush_recv() ...`,
+    `self._conn.send(cmd + self._eol_write)`; no other flush_recv / sleep / send in the function; the commands are split
+    only when wait_before is set.  BytesIO.communicate: the inner try starts with the sleep, the flush and the send, in
+    this order"""
+    f = _get('StringIO.communicate')
+    loops = walk_type(f, ast.For)
+    if len(loops) != 1 or _flat(loops[0].target) != 'cmd' or _flat(loops[0].iter) != 'cmds' or loops[0].orelse:
+        raise Shape('StringIO.communicate: expected exactly one loop `for cmd in cmds:`')
+    body = [b for b in loops[0].body if not _is_noise(b)]
+    if len(body) != 3:
+        raise Shape(f'StringIO.communicate: loop body has {len(body)} statements')
+    if _flat(body[0]) != 'ifself.wait_before:time.sleep(self.wait_before)':
+        raise Shape(f'StringIO.communicate: the loop does not start with the wait_before sleep: {_flat(body[0])}')
+    g = body[1]
+    if not isinstance(g, ast.If) or _flat(g.test) != 'garbageisNone' or g.orelse or not g.body \
+            or _flat(g.body[0]) != 'garbage=self._conn.flush_recv()':
+        raise Shape(f'StringIO.communicate: the flush is not `if garbage is None: garbage = self._conn.flush_recv()` '
+                    f'between the sleep and the send: {_flat(g)[:120]}')
+    if _flat(body[2]) != 'self._conn.send(cmd+self._eol_write)':
+        raise Shape(f'StringIO.communicate: send: {_flat(body[2])}')
+    allc = _calls(f)
+    for name in ('self._conn.flush_recv', 'time.sleep', 'self._conn.send'):
+        if allc.count(name) != 1:
+            raise Shape(f'StringIO.communicate: {name} is called {allc.count(name)} times')
+    assigns = [_flat(a) for a in sorted(walk_type(f, ast.Assign), key=lambda n: (n.lineno, n.col_offset))
+               if any(_flat(t) in ('garbage', 'cmds') for t in a.targets)]
+    if assigns != ['cmds=command.split(self._eol_write)', 'cmds=[command]', 'garbage=None', 'garbage=self._conn.flush_recv()']:
+        raise Shape(f'StringIO.communicate: assignments to cmds / garbage: {assigns}')
+    init = [a for a in walk_type(f, ast.Assign) if _flat(a) == 'garbage=None']
+    if init[0].lineno >= loops[0].lineno:
+        raise Shape('StringIO.communicate: `garbage = None` is not in front of the loop')
+    split = [i for i in walk_type(f, ast.If) if _flat(i.test) == 'self.wait_beforeandself._eol_write']
+    if len(split) != 1 or [_flat(b) for b in split[0].body] != ['cmds=command.split(self._eol_write)'] \
+            or [_flat(b) for b in split[0].orelse] != ['cmds=[command]']:
+        raise Shape('StringIO.communicate: the command is not split on `self.wait_before and self._eol_write` only')
+    fb = _get('BytesIO.communicate')
+    w = _with_lock(fb)
+    tries = [t for t in w.body if isinstance(t, ast.Try)]
+    if len(tries) != 1:
+        raise Shape('BytesIO.communicate: inner try not found')
+    tb = [_flat(b) for b in tries[0].body if not _is_noise(b)]
+    want = ['ifself.wait_before:time.sleep(self.wait_before)', 'garbage=self._conn.flush_recv()']
+    if tb[:2] != want or 'self._conn.send(request)' not in tb or tb.index('self._conn.send(request)') > 3:
+        raise Shape(f'BytesIO.communicate: not sleep, flush, send: {tb[:4]}')
+    callsb = _calls(fb)
+    for name in ('self._conn.flush_recv', 'time.sleep', 'self._conn.send'):
+        if callsb.count(name) != 1:
+            raise Shape(f'BytesIO.communicate: {name} is called {callsb.count(name)} times')
+    return 'bool', 'true'
+
+
 FACTS = [_shape_fact(k) for k in EXPECTED] + [lock_is_reentrant, communicate_atomic, multicomm_holds_lock,
+                                              flush_after_wait_before,
                                               read_is_connected_is_wrapped, trigger_all_registered,
                                               readline_splits_whole_buffer, readbytes_slices_prefix,
                                               flush_recv_clears_buffer, recv_empty_is_closed, recv_slice_s,
